@@ -525,7 +525,12 @@ impl ChainStorage for ZarrAsyncChainStorage {
                     .copied()
                     .unwrap_or(0);
                 let s = sample_counts.get(dim.as_str()).copied().unwrap_or(0);
-                (dim.clone(), (w, s))
+                if self.last_sample_was_warmup {
+                    // The chain never left warmup: everything that was pushed is a warmup event.
+                    (dim.clone(), (s, 0))
+                } else {
+                    (dim.clone(), (w, s))
+                }
             })
             .collect();
         Ok(counts)
@@ -546,6 +551,12 @@ impl ChainStorage for ZarrAsyncChainStorage {
                 .unwrap_or(0);
             let entry = counts.entry(dim.clone()).or_insert((w, 0));
             entry.1 = entry.1.max(s);
+        }
+        if self.last_sample_was_warmup {
+            // The chain is still in warmup: everything that was pushed is a warmup event.
+            for entry in counts.values_mut() {
+                *entry = (entry.1, 0);
+            }
         }
         Ok(Some(counts))
     }
